@@ -12,6 +12,7 @@ attribute [-instance] Num.instOfNat
 
 namespace PhsUniform
 open PhsGeom PhsVolume MeasureTheory
+open scoped Pointwise
 open scoped InnerProductSpace
 
 theorem phs_pushforward_uniform (n : ℕ) (F1 F2 : EuclideanSpace ℝ (Fin (n + 1))) (hne : F1 ≠ F2) (c : ℝ)
@@ -103,6 +104,34 @@ theorem radius_law (n : ℕ) (t : ℝ) (h0 : 0 ≤ t) (h1 : t ≤ 1) :
   · have := Measure.addHaar_ball_mul (μ := (volume : Measure (EuclideanSpace ℝ (Fin (n + 1))))) (0 : EuclideanSpace ℝ (Fin (n + 1))) h0 1
     rw [mul_one] at this
     rw [this, finrank_euclideanSpace, Fintype.card_fin]
+
+/-- **polar factorisation of the uniform law on the ball**: for EVERY set `S` of directions and every radius `t > 0`, the
+part of the ball of radius `t` whose direction lies in `S` is the `t`-dilate of the corresponding part of the unit ball, so
+its volume is `t^(n+1)` times it: under the uniform law on the unit ball, radius and direction are independent and
+`P(‖x‖ < t) = t^(n+1)`. -/
+theorem ball_polar_factorisation (n : ℕ) (S : Set (EuclideanSpace ℝ (Fin (n + 1)))) (t : ℝ) (ht : 0 < t) :
+    volume {x : EuclideanSpace ℝ (Fin (n + 1)) | ‖x‖ < t ∧ x ≠ 0 ∧ ‖x‖⁻¹ • x ∈ S}
+      = ENNReal.ofReal (t ^ (n + 1))
+        * volume {x : EuclideanSpace ℝ (Fin (n + 1)) | ‖x‖ < 1 ∧ x ≠ 0 ∧ ‖x‖⁻¹ • x ∈ S} := by
+  have hset : {x : EuclideanSpace ℝ (Fin (n + 1)) | ‖x‖ < t ∧ x ≠ 0 ∧ ‖x‖⁻¹ • x ∈ S}
+      = t • {x : EuclideanSpace ℝ (Fin (n + 1)) | ‖x‖ < 1 ∧ x ≠ 0 ∧ ‖x‖⁻¹ • x ∈ S} := by
+    ext x
+    rw [Set.mem_smul_set_iff_inv_smul_mem₀ ht.ne']
+    simp only [Set.mem_ofPred_eq]
+    have hn : ‖t⁻¹ • x‖ = t⁻¹ * ‖x‖ := by rw [norm_smul, Real.norm_eq_abs, abs_of_pos (inv_pos.2 ht)]
+    have hdir : ‖t⁻¹ • x‖⁻¹ • t⁻¹ • x = ‖x‖⁻¹ • x := by
+      rw [hn, smul_smul, mul_inv, inv_inv, mul_assoc, mul_comm (‖x‖⁻¹), ← mul_assoc, mul_inv_cancel₀ ht.ne', one_mul]
+    rw [hdir, hn]
+    constructor
+    · rintro ⟨h1, h2, h3⟩
+      refine ⟨?_, ?_, h3⟩
+      · rw [inv_mul_lt_iff₀ ht]; simpa using h1
+      · exact smul_ne_zero (inv_ne_zero ht.ne') h2
+    · rintro ⟨h1, h2, h3⟩
+      refine ⟨?_, ?_, h3⟩
+      · rw [inv_mul_lt_iff₀ ht] at h1; simpa using h1
+      · intro h0; exact h2 (by rw [h0, smul_zero])
+  rw [hset, Measure.addHaar_smul, finrank_euclideanSpace, Fintype.card_fin, abs_of_pos (pow_pos ht _)]
 
 end PhsUniform
 end OmplModel.Phs
